@@ -330,6 +330,46 @@ def mapper_table():
     return rows
 
 
+# ------------------------------------------------------------------ which name "<name>._mapper" is looked up under
+
+def submapper_lookup(path, fname):
+    """In function `fname` of `path`: the loop `for <key>, ... in ....items()` (or `in items`) whose body reads
+    mapper.get(f"{X}._mapper" ...): ByAttrName when X is the loop's key variable, ByMappedName when X is a variable the
+    body computes from the mapper, LookupOther otherwise (several different reads, none, or anything else)."""
+    tree = ast.parse(open(path).read())
+    fn = None
+    for n in ast.walk(tree):
+        if isinstance(n, ast.FunctionDef) and n.name == fname:
+            fn = n
+    if fn is None:
+        raise Unsupported("def %s not found" % fname)
+    kinds = set()
+    for loop in ast.walk(fn):
+        if not (isinstance(loop, ast.For) and isinstance(loop.target, ast.Tuple) and loop.target.elts
+                and isinstance(loop.target.elts[0], ast.Name)):
+            continue
+        keyvar = loop.target.elts[0].id
+        assigned = set()
+        for n in ast.walk(loop):
+            if isinstance(n, ast.Assign):
+                for t in n.targets:
+                    if isinstance(t, ast.Name):
+                        assigned.add(t.id)
+        for n in ast.walk(loop):
+            if isinstance(n, ast.JoinedStr) and len(n.values) == 2 and isinstance(n.values[0], ast.FormattedValue) \
+                    and isinstance(n.values[1], ast.Constant) and n.values[1].value == "._mapper":
+                x = n.values[0].value
+                if isinstance(x, ast.Name) and x.id == keyvar:
+                    kinds.add("ByAttrName")
+                elif isinstance(x, ast.Name) and x.id in assigned:
+                    kinds.add("ByMappedName")
+                else:
+                    kinds.add("LookupOther")
+    if len(kinds) != 1:
+        return "LookupOther"
+    return kinds.pop()
+
+
 # ------------------------------------------------------------------ rendering
 
 def render():
@@ -369,6 +409,15 @@ def render():
     except (Unsupported, OSError, SyntaxError, IndexError) as ex:
         lines.append("(* not translated: %s *)" % str(ex).replace("*)", "* )")[:200])
         lines.append("Definition schema_mapper_table_UNTRANSLATABLE : unit := tt.")
+    lines.append("")
+    for dname, path, fname in (("schema_submapper_lookup", SRC, "_generate_schema_for_fields_internal"),
+                               ("serializer_submapper_lookup",
+                                os.path.join(core.REPO, "typedpy", "serialization", "serialization.py"), "serialize_internal")):
+        try:
+            lines.append("(* %s: the name under which \"<name>._mapper\" is read *)" % fname)
+            lines.append("Definition %s : lookup_name := %s." % (dname, submapper_lookup(path, fname)))
+        except (Unsupported, OSError, SyntaxError) as ex:
+            lines.append("Definition %s_UNTRANSLATABLE : unit := tt." % dname)
     lines.append("")
     try:
         st = module_state()
